@@ -497,7 +497,7 @@ pub fn build() -> Property {
             Phase {
                 name: "cli_generated",
                 kind: PhaseKind::Gen {
-                    cases: (3000, 40000),
+                    cases: (15000, 150000),
                     tape_len: 96 + 16 + 64 + 2000 + 4 * 4000 + 14000 + 400,
                     f: Box::new(cli_case),
                 },
@@ -506,7 +506,7 @@ pub fn build() -> Property {
             Phase {
                 name: "cli_repo_files",
                 kind: PhaseKind::Gen {
-                    cases: (800, 8000),
+                    cases: (3000, 30000),
                     tape_len: 200,
                     f: Box::new(repo_file_case),
                 },
